@@ -10,6 +10,7 @@ import (
 	"path/filepath"
 	"runtime"
 	"sort"
+	"strings"
 	"sync"
 	"time"
 
@@ -114,7 +115,7 @@ func runWorldOnce(a *artefacts, spec *simrt.Spec, limit time.Duration) *worldRun
 	cmd.Stdout, cmd.Stderr = &so, &se
 	t0 := time.Now()
 	err = cmd.Run()
-	wr := &worldRun{Stdout: so.String(), Stderr: se.String(), Wall: time.Since(t0)}
+	wr := &worldRun{Stdout: afterBoundary(so.String()), Stderr: afterBoundary(se.String()), Wall: time.Since(t0)}
 	if ctx.Err() != nil {
 		wr.Watchdog = true
 		return wr
@@ -366,4 +367,15 @@ func worldGOMAXPROCS(sp *simrt.Spec) string {
 		return "16"
 	}
 	return "1"
+}
+
+// boundaryMark is written to stdout and stderr by the driver of a session world when the earlier
+// invocations are over: what the observed invocation printed is what follows the last mark.
+const boundaryMark = "\x00verif-session-boundary\x00\n"
+
+func afterBoundary(s string) string {
+	if i := strings.LastIndex(s, boundaryMark); i >= 0 {
+		return s[i+len(boundaryMark):]
+	}
+	return s
 }
